@@ -126,6 +126,7 @@ struct World {
     cb_ran: bool,
     cb_last: bool,
     armed: bool,
+    probe_fd: i32,
 }
 
 static mut WORLD: *mut World = std::ptr::null_mut();
@@ -742,7 +743,10 @@ fn do_close(h: &Handle, who: &str) {
             sim::count(E_ITER_CLOSE_WHILE_BLOCKED, 1);
         }
     }
-    h.close();
+    if catch_unwind(AssertUnwindSafe(|| h.close())).is_err() {
+        let _g = ShimGuard::new();
+        sim::report("C11", "close-panicked", &format!("close() panicked: {}", sighook_shim::shm::get_str(&sighook_shim::shm::get().panic_msg)), true);
+    }
     {
         let _g = ShimGuard::new();
         let x = w();
@@ -761,8 +765,12 @@ fn do_add(h: &Handle, sig: i32) {
         let _g = ShimGuard::new();
         let x = w();
         x.seq += 1;
-        x.watched.push((sig, x.seq, None));
-        x.inject_sigs.push(sig);
+        if !x.watched.iter().any(|e| e.0 == sig) {
+            x.watched.push((sig, x.seq, None));
+            x.inject_sigs.push(sig);
+        } else {
+            sim::count(E_CONCURRENT_ADD, 1);
+        }
     }
     let r = catch_unwind(AssertUnwindSafe(|| h.add_signal(sig)));
     let _g = ShimGuard::new();
@@ -777,7 +785,18 @@ fn do_add(h: &Handle, sig: i32) {
                 }
             }
         }
-        _ => sim::harness_error("add_signal failed unexpectedly"),
+        Ok(Err(e)) => sim::report("C12", "add-signal-failed", &format!("add_signal({}) of a valid signal returned an error: {}", sig, e), true),
+        Err(_) => sim::report("C12", "add-signal-panicked", &format!("add_signal({}) of a valid signal panicked (two handles adding the same signal concurrently?): {}", sig, sighook_shim::shm::get_str(&sighook_shim::shm::get().panic_msg)), true),
+    }
+}
+
+/// Fault: a documented, caught panic of add_signal (forbidden signal) on this handle.
+fn do_rejected_add(h: &Handle) {
+    let r = catch_unwind(AssertUnwindSafe(|| h.add_signal(libc::SIGKILL)));
+    let _g = ShimGuard::new();
+    sim::count(E_HIST_REJECTED, 1);
+    if r.is_ok() {
+        sim::report("C14", "forbidden-accepted", "add_signal(SIGKILL) did not panic", false);
     }
 }
 
@@ -816,6 +835,7 @@ pub fn run(spec: &RunSpec) -> ! {
         cb_ran: false,
         cb_last: false,
         armed: false,
+        probe_fd: -1,
     });
     unsafe { WORLD = Box::into_raw(world) };
     let sh = sighook_shim::shm::get();
@@ -832,6 +852,8 @@ pub fn run(spec: &RunSpec) -> ! {
     let mode = [Mode::Wait, Mode::Forever, Mode::Pending, Mode::Poll][sim::work(4) as usize];
     let mode = if prop == "C11" && sim::work(2) == 0 { Mode::Poll } else { mode };
     let mode = if adapter_tokio { Mode::Tokio } else { mode };
+    // C12's concurrent slice needs the harness-owned pipe (clean-up probe)
+    let mode = if prop == "C12" { [Mode::Pending, Mode::Poll][(spec.run / 4 % 2) as usize] } else { mode };
     let exf = sim::work(3) as u8;
     let mut pool: Vec<i32> = SIGS.to_vec();
     let nw = 1 + sim::work(2) as usize;
@@ -858,6 +880,8 @@ pub fn run(spec: &RunSpec) -> ! {
         dels.push((0..n).map(|_| if burst && sim::work(4) != 0 { bs } else { all[sim::work(all.len() as u32) as usize] }).collect());
     }
     let nclosers = if prop == "C11" { 1 + sim::work(3) as usize } else { 1 };
+    let concurrent_add = added.is_some() && sim::work(2) == 0;
+    let rejected_add = sim::work(4) == 0;
     let early_close = prop == "C11" && sim::work(3) != 0;
     let prefill = sim::work(4);
     let policy = match sim::work(8) {
@@ -920,6 +944,9 @@ pub fn run(spec: &RunSpec) -> ! {
     sim::start(cfg);
     sim::set_handler_step_limit(400);
     sim::set_deadlock_classifier(Box::new(classify));
+    // the consumer's calls (wait/pending/forever/poll) never panic on a correct tree; the only
+    // panics reachable from them are the channel's internal expects
+    sim::set_thread_panic_prop("C08");
 
     // ---- set-up (thread 0, sequential)
     if let Some(u) = unwatched {
@@ -959,6 +986,7 @@ pub fn run(spec: &RunSpec) -> ! {
     } else if with_pipe {
         let (rd, wr) = UnixStream::pair().expect("socketpair");
         rd.set_nonblocking(true).ok();
+        w().probe_fd = unsafe { libc::dup(rd.as_raw_fd()) };
         for _ in 0..prefill {
             unsafe { libc::send(wr.as_raw_fd(), b"P".as_ptr() as *const _, 1, libc::MSG_DONTWAIT) };
         }
@@ -1011,7 +1039,18 @@ pub fn run(spec: &RunSpec) -> ! {
         }));
     }
     let h2 = handle.clone();
+    if concurrent_add {
+        let h3 = handle.clone();
+        let a = added.unwrap();
+        tids.push(sim::spawn("adder", move || {
+            sim::sp_user();
+            do_add(&h3, a);
+        }));
+    }
     let controller = sim::spawn("controller", move || {
+        if rejected_add {
+            do_rejected_add(&h2);
+        }
         if let Some(a) = added {
             sim::sp_user();
             do_add(&h2, a);
@@ -1045,8 +1084,23 @@ pub fn run(spec: &RunSpec) -> ! {
     sim::join(controller);
     sim::join(consumer);
 
-    // ---- after everything: nothing may be yielded for deliveries that never happened (checked at
-    // each yield); summary probes
+    // ---- after the instance and every handle are gone: no registration of the instance is left
+    // (a delivery of a formerly watched signal writes nothing into its pipe)
+    if w().probe_fd >= 0 {
+        sim::set_stop_inject(true);
+        let sigs: Vec<i32> = w().watched.iter().map(|e| e.0).collect();
+        drain_fd(w().probe_fd);
+        for s in sigs {
+            do_delivery(s, false);
+            let n = drain_fd(w().probe_fd);
+            if n != 0 {
+                let _g = ShimGuard::new();
+                sim::report("C12", "registration-leaked", &format!("after the instance and all its handles were dropped a delivery of {} still wrote {} byte(s) into its self-pipe: a registration was left behind", sig_name(s), n), true);
+            }
+        }
+    }
+    // ---- nothing may be yielded for deliveries that never happened (checked at each yield);
+    // summary probes
     let _g = ShimGuard::new();
     let x = w();
     let c = &sighook_shim::shm::get().counters;
@@ -1057,6 +1111,7 @@ pub fn run(spec: &RunSpec) -> ! {
         "C09" | "C03" => c[E_ITER_STORE_DURING_SCAN] > 0,
         "C10" => c[E_ITER_STORE_DURING_SCAN] > 0 || burst,
         "C11" => c[E_ITER_CLOSE_BETWEEN_CHECKS] > 0 || c[E_ITER_CLOSE_WHILE_BLOCKED] > 0,
+        "C12" => c[E_CONCURRENT_ADD] > 0 || c[E_HIST_REJECTED] > 0,
         _ => true,
     };
     if nontrivial {
